@@ -199,7 +199,8 @@ def apply_op(a, op, rng, step, ctx, st, w):
                 ctx.fail("%s: mutating a copy raised %s: %s" % (what, type(e).__name__, str(e)[:160]), witness=w)
             st.count("copy_independence_probes")
         elif kind == "sub":
-            b = a[list(op[1])]
+            idx = list(op[1])
+            b = a[[idx[0], idx, np.array(idx)][step % 3] if len(idx) == 1 else [idx, np.array(idx), tuple(idx)][step % 3]]
             pred = AM.subset(m0, [ids[i] for i in op[1]])
             # a subset carries the type tables along; nothing else
         elif kind == "rpl":
